@@ -1,5 +1,8 @@
 ------------------------------- MODULE EditTrace -------------------------------
 (* C10 trace validation: key / click sequences executed on real Edit widgets.                 *)
+(* tr.kind: "edit" (Edit, judged by Ref), "int" (IntEdit, judged by RefInt: digits only,       *)
+(* leading zeros left of the cursor dropped) or "num" (IntegerEdit / FloatEdit: alphabet and   *)
+(* robustness clauses only).                                                                   *)
 EXTENDS EditOps, Json, IOUtils
 
 Traces == JsonDeserialize(IOEnv.TRACE_FILE)
@@ -11,34 +14,63 @@ Init == tid \in 1..Len(Traces) /\ l = 0 /\ pref = -9 /\ ok = TRUE /\ why = "-"
 AllowedOnly(text, allowed, neg) ==
   \A i \in 1..Len(text) : text[i] \in {allowed[j] : j \in 1..Len(allowed)} \/ (neg /\ i = 1 /\ text[i] = 45)
 
-\* e: key, pre = [text, pos, cur, stops], post = [text, pos, cur, rcur (cursor of the focused rendering), stops],
+\* the snapshot before event k of a trace is the one after event k - 1 (tr.init for the first): [text, pos, cur, rcur, stops, aligned]
+PreOf(tr, k) == IF k = 1 THEN tr.init ELSE tr.ev[k - 1].post
+
+RefOf(tr, e, pre, pf) == IF tr.kind = "int" THEN RefInt([text |-> pre.text, pos |-> pre.pos, pref |-> pf], e.key, pre.cur, pre.stops, tr.caplen, tr.opt, "trim")
+                         ELSE Ref([text |-> pre.text, pos |-> pre.pos, pref |-> pf], e.key, pre.cur, pre.stops, tr.caplen, tr.opt)
+
+\* the signals of one key: (change, postchange) pairs, each 'change' carrying the new text while the widget still holds the old one, each
+\* 'postchange' the old text while the widget holds the new one; the pairs lead from the text before the key to the text after it
+SignalPairs(sig) == Len(sig) % 2 = 0 /\ \A j \in 1..Len(sig) : sig[j].name = (IF j % 2 = 1 THEN "change" ELSE "postchange")
+ChangeCarriesNew(sig, old, new) ==
+  /\ sig[1].cur = old /\ sig[Len(sig) - 1].arg = new
+  /\ \A j \in 1..(Len(sig) \div 2) : sig[2 * j - 1].arg = sig[2 * j].cur /\ (j > 1 => sig[2 * j - 1].cur = sig[2 * j - 2].cur)
+PostchangeCarriesOld(sig, old, new) ==
+  /\ sig[2].arg = old /\ sig[Len(sig)].cur = new
+  /\ \A j \in 1..(Len(sig) \div 2) : sig[2 * j].arg = sig[2 * j - 1].cur
+
+\* in the inexact case (a column outside every character cell of the target row) the cursor takes an offset of that row that a column
+\* can designate: a character cell, the start or the end of the row - not a zero-width character in the middle of the row; a stop of the
+\* caption stands for the first offset of the text (the cursor never enters the caption)
+RowTargets(row) == {i \in 1..Len(row) : row[i][3] > 0 \/ i = 1 \/ i = EndIdx(row)}
+Clamp(p, n) == Min2(Max2(p, 0), n)
+
+\* the integer variant drops zeros after a key (not after a click)
+Trims(tr, e) == tr.kind = "int" /\ e.key.k # "click"
+
+\* e: key, post = [text, pos, cur, rcur (cursor of the focused rendering), stops],
 \*    ret (1 = returned unhandled), sig = sequence of [name, arg, cur] signal records, judge (0 = robustness only)
-Verdict(tr, e) ==
+Verdict(tr, e, pre) ==
   IF e.exc # "" THEN "key_never_raises"
   ELSE IF e.post.pos < 0 \/ e.post.pos > Len(e.post.text) THEN "offset_between_0_and_length"
   ELSE IF ~e.post.aligned THEN "offset_never_inside_multibyte_character"
-  ELSE IF tr.numeric = 1 THEN (IF ~AllowedOnly(e.post.text, tr.allowed, tr.neg = 1) THEN "numeric_only_allowed_alphabet" ELSE "-")
+  ELSE IF tr.numeric = 1 /\ ~AllowedOnly(e.post.text, tr.allowed, tr.neg = 1) THEN "numeric_only_allowed_alphabet"
+  ELSE IF tr.kind = "num" THEN "-"
+  ELSE IF ~CursorInside(e.post.cur, tr.w, Len(e.post.stops)) \/ ~CursorInside(e.post.rcur, tr.w, Len(e.post.stops)) THEN "cursor_inside_the_widget"
   ELSE IF e.post.cur # e.post.rcur THEN "cursor_coords_equal_rendered_cursor"
-  ELSE IF ~(\E i \in 1..Len(e.post.stops[e.post.cur[2] + 1]) :
-              e.post.stops[e.post.cur[2] + 1][i][1] = e.post.pos + tr.caplen /\ e.post.stops[e.post.cur[2] + 1][i][2] = e.post.cur[1])
-       THEN "cursor_drawn_in_cell_of_character_at_offset"
-  ELSE LET r == Ref([text |-> e.pre.text, pos |-> e.pre.pos, pref |-> pref], e.key, e.pre.cur, e.pre.stops, tr.caplen, tr.opt)
-           changed == e.post.text # e.pre.text
-       IN IF e.judge = 1 /\ r.text # e.post.text THEN "text_equals_reference_editor"
+  ELSE IF ~CursorOnStop(e.post.cur, e.post.stops, e.post.pos + tr.caplen) THEN "cursor_drawn_in_cell_of_character_at_offset"
+  ELSE LET r == RefOf(tr, e, pre, pref)
+           changed == e.post.text # pre.text
+           row == pre.stops[r.row]
+       IN IF e.judge = 1 /\ (r.exact \/ ~Trims(tr, e)) /\ r.text # e.post.text THEN "text_equals_reference_editor"
           ELSE IF e.judge = 1 /\ r.exact /\ r.pos # e.post.pos THEN "offset_equals_reference_editor"
-          ELSE IF e.judge = 1 /\ ~r.exact /\ ~(\E i \in 1..Len(e.pre.stops[r.row]) : e.pre.stops[r.row][i][1] = e.post.pos + tr.caplen)
+          ELSE IF e.judge = 1 /\ ~r.exact /\ ~Trims(tr, e) /\ ~(\E i \in RowTargets(row) : Clamp(row[i][1] - tr.caplen, Len(pre.text)) = e.post.pos)
+               THEN "cursor_moves_to_the_requested_display_row"
+          ELSE IF e.judge = 1 /\ ~r.exact /\ Trims(tr, e)
+                  /\ ~(\E i \in RowTargets(row) : LET t == TrimZeros(pre.text, Clamp(row[i][1] - tr.caplen, Len(pre.text)))
+                                                 IN t.text = e.post.text /\ t.pos = e.post.pos)
                THEN "cursor_moves_to_the_requested_display_row"
           ELSE IF e.judge = 1 /\ r.handled # (e.ret = 0) THEN "unused_keys_returned_unhandled"
-          ELSE IF changed /\ (Len(e.sig) # 2 \/ e.sig[1].name # "change" \/ e.sig[2].name # "postchange") THEN "change_then_postchange"
-          ELSE IF changed /\ (e.sig[1].arg # e.post.text \/ e.sig[1].cur # e.pre.text) THEN "change_signalled_with_new_text_before"
-          ELSE IF changed /\ (e.sig[2].arg # e.pre.text \/ e.sig[2].cur # e.post.text) THEN "postchange_signalled_with_old_text_after"
+          ELSE IF changed /\ (Len(e.sig) < 2 \/ ~SignalPairs(e.sig) \/ (tr.kind # "int" /\ Len(e.sig) # 2)) THEN "change_then_postchange"
+          ELSE IF changed /\ ~ChangeCarriesNew(e.sig, pre.text, e.post.text) THEN "change_signalled_with_new_text_before"
+          ELSE IF changed /\ ~PostchangeCarriesOld(e.sig, pre.text, e.post.text) THEN "postchange_signalled_with_old_text_after"
           ELSE "-"
 
 Step == /\ ok /\ l < Len(Traces[tid].ev) /\ l' = l + 1 /\ tid' = tid
-        /\ LET e == Traces[tid].ev[l + 1]  v == Verdict(Traces[tid], e)
+        /\ LET tr == Traces[tid]  e == tr.ev[l + 1]  pre == PreOf(tr, l + 1)  v == Verdict(tr, e, pre)
            IN /\ why' = v /\ ok' = (v = "-")
-              /\ pref' = IF e.exc # "" \/ Traces[tid].numeric = 1 THEN -9
-                         ELSE Ref([text |-> e.pre.text, pos |-> e.pre.pos, pref |-> pref], e.key, e.pre.cur, e.pre.stops, Traces[tid].caplen, Traces[tid].opt).pref
+              /\ pref' = IF e.exc # "" \/ tr.kind = "num" THEN -9 ELSE RefOf(tr, e, pre, pref).pref
 Spec == Init /\ [][Step]_vars
 Report == ok \/ PrintT(<<"REJECT", tid, l, why>>)
 ================================================================================
